@@ -68,9 +68,11 @@ structure Verdict where
   boundary : Bool
   /-- upgrade: failed revision not named; downgrade: still named -/
   failedOk : Bool
-  /-- real transactional DDL, one enclosing transaction: everything as before the command -/
+  /-- real transactional DDL, one enclosing transaction (alembic's, or the caller's external
+      transaction, which alembic must not commit): everything as before the command -/
   singleOk : Bool
-  /-- real transactional DDL, per-migration: exactly the completed migrations applied + recorded -/
+  /-- real transactional DDL, per-migration transactions (`transaction_per_migration`, or
+      `transactional_ddl` false): exactly the completed migrations applied + recorded -/
   perMigOk : Bool
   /-- `transactional_ddl` false: rows = completed migrations -/
   nonTxnOk : Bool
@@ -81,6 +83,24 @@ def Verdict.holds (v : Verdict) : Bool := v.boundary && v.failedOk && v.singleOk
 def boundaryRows (pre : List (Stmt Act)) (plan : List (Mig Act)) (db : Db) (rows : List Nat) : Nat → Bool
   | 0 => (stateAt applyAct pre plan 0 db).rows == rows
   | j + 1 => (stateAt applyAct pre plan (j + 1) db).rows == rows || boundaryRows pre plan db rows j
+
+/-- hypothesis of `C04.never_names_failed`, decidable form: at every migration boundary
+    `j ≤ k` the table names `rev` iff the run is a downgrade -/
+def namesHyp (parents : List (Nat × List Nat)) (pre : List (Stmt Act)) (plan : List (Mig Act)) (db : Db)
+    (rev : Nat) (upgrade : Bool) : Nat → Bool
+  | 0 => names parents (stateAt applyAct pre plan 0 db).rows rev == !upgrade
+  | j + 1 => (names parents (stateAt applyAct pre plan (j + 1) db).rows rev == !upgrade) &&
+      namesHyp parents pre plan db rev upgrade j
+
+/-- statements of migration bodies and the housekeeping do not touch version rows -/
+def objOnly : Act → Bool
+  | .add _ => true
+  | .del _ => true
+  | .createVT => true
+  | _ => false
+
+def wfPlan (pre : List (Stmt Act)) (plan : List (Mig Act)) : Bool :=
+  pre.all (fun s => objOnly s.act) && plan.all (fun m => (bodyActs m.segs).all objOnly)
 
 /-- `upgrade = true`: the run was an upgrade.  `final` is the observation of a fresh
     connection after migration `k` raised at atom position `pos`. -/
@@ -96,8 +116,8 @@ def check (c : Cfg) (upgrade : Bool) (parents : List (Nat × List Nat)) (pre : L
   let before := ((plan.take k).map migAtoms).all noAuto && noAuto failing
   { boundary := boundaryRows pre plan db final.rows k
     failedOk := names parents final.rows failedRev == !upgrade
-    singleOk := !(realTddl && c.tddl && !c.perMig && !c.external && before) || final == db
-    perMigOk := !(realTddl && c.tddl && c.perMig && !c.external && noAuto failing) ||
+    singleOk := !(realTddl && (c.external || (c.tddl && !c.perMig)) && before) || final == db
+    perMigOk := !(realTddl && (!c.tddl || c.perMig) && !c.external && noAuto failing) ||
       final == stateAt applyAct pre plan k db || final == applied applyAct plan k db
     nonTxnOk := !(!c.tddl && !c.external) || final.rows == (stateAt applyAct pre plan k db).rows }
 
